@@ -53,7 +53,7 @@ def blur_case(draw, tier):
     fn = draw(st.sampled_from(["pixel", "jitter", "smear"]))
     os_ = draw(st.integers(1, 5))
     ext = draw(st.sampled_from([0.0, 0.3, 1.0, 2.5, 6.0])) if draw(st.booleans()) else draw(gen.finite(0.0, 6.0))
-    return {"img": img, "kind": kind, "fn": fn, "oversample": os_, "extent": ext,
+    return {"layout": draw(gen.layouts()), "img": img, "kind": kind, "fn": fn, "oversample": os_, "extent": ext,
             "angle": draw(st.sampled_from([0, 90, 45.0, 180, 270, 30.0])) if draw(st.booleans()) else draw(gen.finite(0.0, 360.0)),
             "pixelscale": draw(gen.pos_log(1e-6, 1e-4)), "roll": [draw(st.integers(-30, 30)), draw(st.integers(-30, 30))],
             "phys": draw(st.booleans())}
@@ -91,7 +91,7 @@ def transfer(case, shape):
      "zero extent, equal to the analytic circular convolution where that is non-negative, flux preserving, physical "
      "units == sample units", examples=(800, 3000))
 def blur(case, ctx):
-    img = case["img"]
+    img = gen.relayout(case["img"], case.get("layout"))
     shape = img.shape
     fn = case["fn"]
     if img.sum() <= 0:
